@@ -121,6 +121,17 @@ func runC15(c *core.Ctx) {
 			}
 			// (3) bounds on e from the dominating guards
 			lo, hi, haveLo, haveHi := boundsOn(f, be, cnt.Y)
+			// an IPv6 prefix length (0..128) subtracted from a base without the matching half-word guard wraps around
+			if fam[f] == 6 && isPrefixLen(f, cnt.Y) {
+				switch B {
+				case 64:
+					c.Check(haveHi && hi <= 64, "bound-agrees-with-base", site+" guarded by len ≤ 64", be.Pos(),
+						"shift by (64 − prefix length) is not dominated by a `length ≤ 64` guard: for lengths above 64 the uint8 subtraction wraps, the shift clears the whole word and the upper 64 address bits are ignored")
+				case 128:
+					c.Check(haveLo && lo >= 65, "bound-agrees-with-base", site+" guarded by len > 64", be.Pos(),
+						"shift by (128 − prefix length) is not dominated by a `length > 64` guard: for lengths up to 64 the shift is ≥ 64 and the mask degenerates")
+				}
+			}
 			if haveHi {
 				c.Check(hi == B, "bound-agrees-with-base", site+" upper bound", be.Pos(),
 					fmt.Sprintf("the guards admit e ≤ %d here but the shift base is %d: legal value e = %d is excluded or values beyond the base are admitted", hi, B, B))
@@ -131,6 +142,63 @@ func runC15(c *core.Ctx) {
 			}
 			return true
 		})
+	}
+	// both halves take part in IPv6 containment: every return of containsIPv6 compares the upper halves, and the
+	// return(s) reachable for lengths above 64 compare the lower halves too
+	if f := c.MustFunc("net.(*Prefix).containsIPv6"); f != nil {
+		hiF, loF := p.Field("net", "IP", "higher"), p.Field("net", "IP", "lower")
+		lenF := p.Field("net", "Prefix", "len")
+		nRet := 0
+		ast.Inspect(f.Decl.Body, func(n ast.Node) bool {
+			ret, ok := n.(*ast.ReturnStmt)
+			if !ok || len(ret.Results) != 1 || core.ConstOf(f.Pkg, ret.Results[0]) != nil {
+				return true
+			}
+			nRet++
+			count := func(fv *types.Var) int {
+				k := 0
+				var walk func(e ast.Node, depth int)
+				walk = func(e ast.Node, depth int) {
+					ast.Inspect(e, func(m ast.Node) bool {
+						if ex, isE := m.(ast.Expr); isE {
+							if core.FieldOf(f.Pkg, ex) == fv {
+								k++
+							}
+							if id, isId := ex.(*ast.Ident); isId && depth < 3 {
+								if o := core.ObjOf(f.Pkg, id); o != nil {
+									if v, isV := o.(*types.Var); isV && !v.IsField() {
+										for _, d := range core.DefsOf(f, o) {
+											walk(d, depth+1)
+										}
+									}
+								}
+							}
+						}
+						return true
+					})
+				}
+				walk(ret.Results[0], 0)
+				return k
+			}
+			// which lengths reach this return?
+			_, hi, _, haveHi := boundsOn(f, ret, &ast.SelectorExpr{})
+			_ = hi
+			lenLE64 := false
+			for _, ft := range core.FactsAt(f, ret) {
+				if be, isB := ft.Expr.(*ast.BinaryExpr); isB && core.FieldOf(f.Pkg, be.X) == lenF {
+					if v := core.ConstOf(f.Pkg, be.Y); v != nil && v.ExactString() == "64" && ((be.Op == token.LEQ && ft.Truth) || (be.Op == token.GTR && !ft.Truth)) {
+						lenLE64 = true
+					}
+				}
+			}
+			_ = haveHi
+			c.Check(count(hiF) >= 2, "both-halves-compared", fmt.Sprintf("%s return #%d compares the upper halves", f.Name(), nRet), ret.Pos(), "IPv6 containment result does not depend on the upper 64 bits of both addresses: prefixes that differ there are reported as contained")
+			if !lenLE64 {
+				c.Check(count(loF) >= 2, "both-halves-compared", fmt.Sprintf("%s return #%d compares the lower halves for lengths above 64", f.Name(), nRet), ret.Pos(), "for prefix lengths above 64 the containment result does not depend on the lower 64 bits of both addresses")
+			}
+			return true
+		})
+		c.Check(nRet >= 1, "both-halves-compared", f.Name()+" has a computed result", f.Decl.Pos(), "no computed return")
 	}
 	// constant shifts by a variable n (maskLastNBits): mask constant must match the target width
 	for _, k := range []string{"net.(IP).maskLastNBitsIPv4", "net.(IP).maskLastNBitsIPv6"} {
@@ -283,4 +351,12 @@ func addressFamilies(p *core.Prog) map[*core.Fn]int {
 		}
 	}
 	return fam
+}
+
+// isPrefixLen: e is the Prefix.len field or a local initialised from expressions bounded by it (min of lengths).
+func isPrefixLen(f *core.Fn, e ast.Expr) bool {
+	if fv := core.FieldOf(f.Pkg, e); fv != nil && fv.Name() == "len" {
+		return true
+	}
+	return false
 }
